@@ -26,6 +26,12 @@ Abstractions (named gaps):
     DEAD copy (parents map filled in traversal order, the tombstone comes later) and skipped;
     the old tree also ran operations with a stale parent on the dead copy, which a one-entry heap
     cannot follow (harness argument `reid=old` keeps those traces out of the comparison).
+  * a REMOTE operation whose parent is the OLD identity of an array element that an undo/redo
+    re-inserted under a fresh identity (the peer had not seen the re-insertion): Go applies it to
+    the tombstone, whose children are physically distinct from the copy's although they share
+    their identities - invisible, replicas converge on the restored content; the single heap
+    entry per identity cannot express that (the copy's member would be hit). Not a finding; the
+    harness stops comparing such a trace at the delivery (corpus/C15/undo-remote-into-old-identity).
   * `Root.DeregisterElement` under `OpSourceUndoRedo` only matters for GC registries (see the
     fragment Model/UndoGc.lean); element-map entries of unreachable elements are kept.
   * a restoring `Set` that LOSES the LWW comparison against a live occupant of the SAME identity (two
